@@ -384,7 +384,8 @@ META = {
              "objects with and without initialiser, assignment and compound assignment, ++/-- (also on _Bool objects), expression "
              "statements, compound statements, if, if-else, while, do-while, for (any clause missing, declaration in the first), "
              "switch with case/default labels anywhere in its body (fall-through, nested loops and blocks, controlling type int..unsigned "
-             "long long, the comparison ladder of casesearch over the AVL tree of tree.c), "
+             "long long, also controlling expressions of the narrow types _Bool/char/short with case constants OUTSIDE the range of "
+             "that type - they are converted to the PROMOTED type -, the comparison ladder of casesearch over the AVL tree of tree.c), "
              "break, continue and return anywhere (no code after a jump statement in the same block unless it is labelled), "
              "local ARRAYS of integers (`T a[n];`, `x = a[i];`, `a[i] = e;` with any index expression: out-of-bounds index or a read of an "
              "element without value = undefined; the element address is `(unsigned long)i * sizeof *a` added to the one allocation of the "
